@@ -17,6 +17,13 @@ Evaluators created with callbacks (logger, progress bar, SearchEarlyStopping, a 
     L2 against the model's loop with the explicit `stopped` flag (`Model/StopFlag.lean`, fed with what `_search` saw of
     each callback at the end of every iteration); L3 clause `keeps-submitting-after-expiry` (all search-level scenarios):
     no ask() of a timed call after a tell() of that call that took place at/after the call's deadline.
+Several SEARCHES recorded in one storage object (evaluators created with the same `storage=` and no `search_id`: jobs
+    "0.k" and "1.k" coexist): jobs are identified by their full id; the recording storage logs every status write AND
+    read; L2 against `Model/MultiSearch.lean` (driver op `store`: jobs keyed by (search, index), one clock); L3 per search
+    (verified checker + oracle on that search's own jobs, tables and timeouts) plus the cross-search clauses
+    `observed-status-not-monotone` (merged reads and writes of each full id only move forward) and
+    `search-job-list-wrong`; histories with turns (serial, thread), concurrent calls (thread), interleaved
+    evaluator-level scripts (serial).
 """
 import asyncio
 import json
@@ -880,12 +887,387 @@ def run_shared_evaluator_scenario(scn):
     return obs
 
 
+# --------------------------------------------------------------------------- several SEARCHES recorded in one storage
+
+# forward reachability of the status order: READY < RUNNING < DONE | CANCELLING < CANCELLED (close(): READY/RUNNING -> CANCELLED)
+FWD = {0: {0, 1, 2, 3, 4}, 1: {1, 2, 3, 4}, 2: {2}, 3: {3, 4}, 4: {4}}
+
+
+def _event_storage():
+    """MemoryStorage that records every status write and every status READ with the FULL job id ("search.index"), in the
+    order in which they take effect (one lock around the operation and its record, so the order is exact with threads
+    too), and every job creation with the search it was asked for.  Same progress guard as `_log_storage(guard=True)`."""
+    from deephyper.evaluator.storage import MemoryStorage
+
+    class EventStorage(MemoryStorage):
+        def __init__(self):
+            super().__init__()
+            self.elog = []
+            self.created = []
+            self.polls = 0
+            self._elock = threading.RLock()
+
+        def store_job_status(self, job_id, job_status):
+            with self._elock:
+                r = super().store_job_status(job_id, job_status)
+                self.elog.append(("w", str(job_id), int(job_status)))
+                self.polls = 0
+                return r
+
+        def load_job_status(self, job_id):
+            with self._elock:
+                v = super().load_job_status(job_id)
+                self.elog.append(("r", str(job_id), int(v)))
+                return v
+
+        def create_new_job(self, search_id):
+            with self._elock:
+                jid = super().create_new_job(search_id)
+                self.created.append((str(search_id), str(jid)))
+                self.polls = 0
+                return jid
+
+        def store_job(self, job_id, key, value):
+            self.polls = 0
+            return super().store_job(job_id, key, value)
+
+        def load_all_job_ids(self, search_id):
+            self.polls += 1
+            if self.polls > SPIN_LIMIT:
+                raise _Spin("does-not-return: the storage was polled %d times in a row without any write" % SPIN_LIMIT)
+            return super().load_all_job_ids(search_id)
+
+    return EventStorage()
+
+
+def _mspec(job):
+    """(full id, index, (m, p)) of a job of a storage that holds several searches: the run-function of job `index` of the
+    search owned by evaluator k is `mspecs[k][index]`"""
+    full = str(job.id)
+    sid, idx = full.split(".")
+    idx = int(idx)
+    k = _G["sid2k"].get(sid)
+    sp = _G["mspecs"][k] if k is not None and k < len(_G["mspecs"]) else []
+    return full, idx, (sp[idx] if idx < len(sp) else (0, 1))
+
+
+async def _run_async_m(job):
+    full, idx, (m, p) = _mspec(job)
+    clock = _G["clock"]
+    rec = {"start": clock(), "reads": []}
+    k = 0
+    while True:
+        st = job.status.name
+        rec["reads"].append((clock(), st))
+        if st == "CANCELLING" or k >= m:
+            break
+        k += 1
+        await asyncio.sleep(p * TICK)
+    rec["ret"] = clock()
+    _G["runlog"][full] = rec
+    return _out(idx, {})
+
+
+def _run_sync_m(job):
+    full, idx, (m, p) = _mspec(job)
+    unit = _G["unit"]
+    t0 = _time.time()
+    reads = []
+    k = 0
+    while True:
+        st = job.status.name
+        reads.append(st)
+        if st == "CANCELLING" or k >= m:
+            break
+        k += 1
+        _time.sleep(p * unit)
+    t1 = _time.time()
+    with _G["lock"]:
+        _G["runlog"][full] = {"start": t0, "ret": t1, "reads": [(0, r) for r in reads]}
+    return _out(idx, {"t_start": t0, "t_ret": t1, "saw": reads[-1] == "CANCELLING", "nreads": len(reads)})
+
+
+def run_multi_scenario(scn):
+    """ONE storage object that holds SEVERAL searches: evaluator k is created with `storage=<the same>` and NO `search_id`,
+    so it opens a search of its own (jobs "0.0", "0.1", ... and "1.0", "1.1", ...: the job indices of the searches
+    overlap).  Call j is a search() call made by evaluator `calls[j]["k"]`; `rounds` (optional, real time only) groups the
+    calls: the calls of one round (distinct evaluators) run CONCURRENTLY, one thread each; default = one call after the
+    other.  Backend serial (virtual clock) or thread (real time).  Every status write and every status read of the
+    storage is recorded with the full job id."""
+    import contextlib
+    import io
+    from deephyper.evaluator import Evaluator
+    from . import vloop
+
+    backend = scn["backend"]
+    serial = backend == "serial"
+    root = tempfile.mkdtemp(prefix="c14_")
+    obs = {"calls": [], "error": None, "sids": [], "elog": [], "created": [], "runlog": {}, "listed": {}, "final_storage": {}}
+    st = None
+    evs = []
+    try:
+        if serial:
+            vloop.QUANTUM = 1e-4
+            vt = vloop.install()
+            vt.reset()
+            clock = vt.now
+            unit = TICK
+            run = _run_async_m
+
+            def advance(d):
+                vt.t += d * TICK
+        else:
+            vloop.uninstall()
+            clock = _time.time
+            unit = scn["unit"]
+            run = _run_sync_m
+
+            def advance(d):
+                _time.sleep(d * unit)
+        _G.update(voff=int(scn.get("voff", 0)), vmode=scn.get("vmode", "up"), specs=[], runlog={}, clock=clock, hpo=True, unit=unit,
+                  mspecs=[[tuple(x) for x in sp] for sp in scn["specs"]], sid2k={})
+        st = _event_storage()
+        searches, traces, nrows, sids = [], [], [], []
+        for k, W in enumerate(scn["Ws"]):
+            ev = Evaluator.create(run, method=backend, method_kwargs={"num_workers": W, "storage": st})  # no search_id
+            evs.append(ev)
+            tr = []
+            sr = _make_search(ev, os.path.join(root, f"e{k}"), tr, clock, advance)
+            sid = str(sr.search_id)
+            if sid in _G["sid2k"]:
+                raise HarnessError(f"C14: two evaluators created without search_id share the search {sid!r}")
+            _G["sid2k"][sid] = k
+            sids.append(sid)
+            searches.append(sr)
+            traces.append(tr)
+            nrows.append(0)
+        obs["sids"] = sids
+        recs = {}
+
+        def do_call(j):
+            c = scn["calls"][j]
+            k = c["k"]
+            search, trace = searches[k], traces[k]
+            del trace[:]
+            n0 = len(st.load_all_job_ids(sids[k]))
+            T0 = clock()
+            rec = {"k": k, "j": j, "n0": n0, "T0": T0, "dl": None if c.get("t") is None else T0 + c["t"] * (TICK if serial else 1.0)}
+            recs[j] = rec
+            search.ask_delays = list(c.get("delays") or [])
+            search.ask_ends = []
+            search.asks, search.tells = [], []
+            search.call_budget = None if c.get("t") is None else c["t"] * (TICK if serial else 1.0)
+            try:
+                df = search.search(**call_kwargs(c))
+            except (_Spin, _LateSubmits) as e:
+                rec.update(error=str(e), error_asks=[list(a) for a in search.asks], error_tells=list(search.tells))
+                return
+            except RuntimeError as e:
+                if "vloop" in str(e):
+                    rec["error"] = "does-not-return"
+                    return
+                rec["error"] = f"{type(e).__name__}: {e}"[:300]
+                return
+            except Exception as e:  # noqa: BLE001
+                rec["error"] = f"{type(e).__name__}: {e}"[:300]
+                return
+            rec["end"] = clock()
+            rec["ask_ends"] = list(search.ask_ends)
+            rec["stopped"] = bool(search.stopped)
+            rec["asks"] = [list(a) for a in search.asks]
+            rec["tells"] = list(search.tells)
+            rec["views"] = [x[3] for x in trace]
+            rec["njobs"] = len(st.load_all_job_ids(sids[k]))
+            rows = []
+            if df is not None:
+                for _, r in df.iterrows():
+                    rows.append({"id": int(r["job_id"]), "status": str(r["job_status"]), "objective": r["objective"]})
+            rec["rows"] = rows
+            told = [x[1] for x in trace]
+            split = lambda ids: [[i for i in ids if i >= n0], [i for i in ids if i < n0]]
+            rec["reps"] = [split(ids) for ids in told]
+            ntold = sum(len(x) for x in told)
+            rec["drain"] = split([r["id"] for r in rows[nrows[k] + ntold:]])
+            rec["new_rows"] = len(rows) - nrows[k]
+            nrows[k] = len(rows)
+
+        rounds = scn.get("rounds") or [[j] for j in range(len(scn["calls"]))]
+        stop = False
+        for rnd in rounds:
+            with contextlib.redirect_stdout(io.StringIO()), contextlib.redirect_stderr(io.StringIO()):
+                if len(rnd) == 1 or serial:
+                    for j in rnd:
+                        do_call(j)
+                else:
+                    ths = [threading.Thread(target=do_call, args=(j,), daemon=True) for j in rnd]
+                    for th in ths:
+                        th.start()
+                    for th in ths:
+                        th.join(timeout=600.0)
+                    if any(th.is_alive() for th in ths):
+                        if not common.tree_differs_from_head():
+                            raise HarnessError("C14: concurrent search() calls on one storage did not return within 600 s on a tree identical to its HEAD")
+                        obs["error"] = "does-not-return: concurrent search() calls on one storage still running after 600 s"
+                        stop = True
+            for j in rnd:
+                rec = recs.get(j)
+                if rec is not None and rec.get("error") and not obs["error"]:
+                    obs["error"] = rec["error"]
+                    obs["error_call"] = j
+                    obs["error_asks"] = rec.get("error_asks")
+                    obs["error_tells"] = rec.get("error_tells")
+                    stop = True
+            if stop:
+                break
+        obs["calls"] = [recs[j] for j in sorted(recs) if "end" in recs[j]]
+        obs["created"] = list(st.created)
+        for k, sid in enumerate(sids):
+            try:
+                obs["listed"][k] = [str(x) for x in st.load_all_job_ids(sid)]
+            except Exception as e:  # noqa: BLE001
+                obs["listed"][k] = [f"{type(e).__name__}"]
+        for _, jid in obs["created"]:
+            try:
+                obs["final_storage"][jid] = int(st.load_job_status(jid))
+            except Exception:
+                pass
+        obs["elog"] = list(st.elog)
+        with _G["lock"]:
+            obs["runlog"] = {k: dict(v) for k, v in _G["runlog"].items()}
+    except HarnessError:
+        raise
+    except Exception as e:
+        obs["error"] = f"{type(e).__name__}: {e}"[:300]
+        if st is not None:
+            obs["elog"] = list(st.elog)
+            obs["created"] = list(st.created)
+    finally:
+        for ev in evs:
+            try:
+                ev.close()
+            except Exception:
+                pass
+            if hasattr(ev, "executor"):
+                try:
+                    ev.executor.shutdown(wait=False, cancel_futures=True)
+                except Exception:
+                    pass
+        shutil.rmtree(root, ignore_errors=True)
+    return obs
+
+
+def run_multi_evaluator_scenario(scn):
+    """op script on SEVERAL serial evaluators (virtual clock) that share ONE storage object but own a search EACH (created
+    without search_id); every op names its evaluator (`e`): timeout / submit / gather / close.  The ops of the evaluators
+    are INTERLEAVED: jobs of one search are still in flight (RUNNING, polling their status) while the evaluator of another
+    search submits, gathers, lets its timeout expire.  (An evaluator's event loop runs only inside its own gather /
+    close: the run-functions of the others resume late -- no claim on instants here, only on statuses and their order.)"""
+    import contextlib
+    import io
+    from deephyper.evaluator import Evaluator
+    from deephyper.hpo import HpProblem, RandomSearch
+    from . import vloop
+
+    vloop.QUANTUM = 1e-4
+    vt = vloop.install()
+    vt.reset()
+    _G.update(voff=int(scn.get("voff", 0)), vmode="up", specs=[], runlog={}, clock=vt.now, hpo=True, unit=TICK,
+              mspecs=[[tuple(x) for x in sp] for sp in scn["specs"]], sid2k={})
+    st = _event_storage()
+    root = tempfile.mkdtemp(prefix="c14_")
+    evs, sids = [], []
+    obs = {"ops": [], "error": None, "sids": sids, "timed": {}, "closed_inflight": []}
+    nsub = {}
+    try:
+        problem = HpProblem()
+        problem.add_hyperparameter((0.0, 10.0), "x")
+        for k, W in enumerate(scn["Ws"]):
+            ev = Evaluator.create(_run_async_m, method="serial", method_kwargs={"num_workers": W, "storage": st})
+            sr = RandomSearch(problem, ev, random_state=1, log_dir=os.path.join(root, f"e{k}"))
+            sid = str(sr.search_id)
+            if sid in _G["sid2k"]:
+                raise HarnessError(f"C14: two evaluators created without search_id share the search {sid!r}")
+            _G["sid2k"][sid] = k
+            sids.append(sid)
+            evs.append(ev)
+            nsub[k] = 0
+        with contextlib.redirect_stdout(io.StringIO()):
+            for op in scn["ops"]:
+                e, kind = op["e"], op["op"]
+                ev = evs[e]
+                rec = {"op": kind, "e": e}
+                if kind == "timeout":
+                    ev.timeout = op["t"]
+                    if op["t"] is not None:
+                        obs["timed"][e] = True
+                elif kind == "submit":
+                    ev.submit([{"x": nsub[e] + i} for i in range(op["k"])])
+                    nsub[e] += op["k"]
+                elif kind == "gather":
+                    try:
+                        res = ev.gather("ALL") if op["all"] else ev.gather("BATCH", op["size"])
+                        local, other = res if isinstance(res, tuple) else (res, [])
+                        rec.update(rep=[str(j.id) for j in local], orep=[str(j.id) for j in other], err=None)
+                    except ValueError as ex:
+                        rec.update(rep=[], orep=[], err="noJobs" if "No jobs pending" in str(ex) else str(ex))
+                elif kind == "close":
+                    _settle(ev)
+                    before = len(ev.jobs_done)
+                    ev.close()
+                    new = [str(j.id) for j in ev.jobs_done[before:]]
+                    rec.update(new=new)
+                    obs["closed_inflight"] += [j for j in new if j not in _G["runlog"] or "ret" not in _G["runlog"][j]]
+                rec["now"] = _tick(vt.now())
+                obs["ops"].append(rec)
+            for ev in evs:
+                _settle(ev)
+    except _Spin as ex:
+        obs["error"] = str(ex)
+    except RuntimeError as ex:
+        obs["error"] = ("does-not-return: " if "vloop" in str(ex) else "") + f"RuntimeError: {ex}"[:200]
+
+    def _o(j):
+        o = j.output
+        return o["objective"] if isinstance(o, dict) and "objective" in o else o
+
+    try:
+        obs["results"] = {e: [(str(j.id), j.status.name, _o(j)) for j in ev.jobs_done] for e, ev in enumerate(evs)}
+    except Exception as ex:  # noqa: BLE001
+        obs["results"] = {}
+        obs["error"] = obs["error"] or f"{type(ex).__name__}: {ex}"[:200]
+    obs["created"] = list(st.created)
+    obs["listed"], obs["final_storage"] = {}, {}
+    for k, sid in enumerate(sids):
+        try:
+            obs["listed"][k] = [str(x) for x in st.load_all_job_ids(sid)]
+        except Exception as ex:  # noqa: BLE001
+            obs["listed"][k] = [type(ex).__name__]
+    for _, jid in obs["created"]:
+        try:
+            obs["final_storage"][jid] = int(st.load_job_status(jid))
+        except Exception:
+            pass
+    obs["elog"] = list(st.elog)
+    obs["runlog"] = {k: dict(v) for k, v in _G["runlog"].items()}
+    for ev in evs:
+        try:
+            ev.close()
+        except Exception:
+            pass
+    shutil.rmtree(root, ignore_errors=True)
+    return obs
+
+
 def run_scenario(scn):
     _G["vmode"] = scn.get("vmode", "up")
     if scn["level"] == "shared-evaluator":
         return run_shared_evaluator_scenario(scn)
     if scn["level"] == "shared":
         return run_shared_scenario(scn)
+    if scn["level"] == "multi":
+        return run_multi_scenario(scn)
+    if scn["level"] == "multi-evaluator":
+        return run_multi_evaluator_scenario(scn)
     if scn["level"] == "evaluator":
         if scn.get("backend", "serial") != "serial":
             return run_evaluator_realtime(scn)
@@ -2200,11 +2582,57 @@ def _tie_jobs(rep):
 
 
 def _case_of(scn, obs=None):
-    case = {k: scn[k] for k in ("level", "backend", "W", "Ws", "voff", "vmode", "cbs", "specs", "ops", "calls", "unit", "hpo") if k in scn}
+    case = {k: scn[k] for k in ("level", "backend", "W", "Ws", "voff", "vmode", "cbs", "specs", "ops", "calls", "rounds", "unit", "hpo") if k in scn}
+    if scn["level"] == "multi-evaluator":
+        return case
+    if scn["level"] == "multi":
+        if obs is not None and obs.get("sids"):
+            used = {}
+            for jid in obs.get("runlog", {}):
+                sid, i = jid.split(".")
+                if sid in obs["sids"]:
+                    used[obs["sids"].index(sid)] = max(used.get(obs["sids"].index(sid), 0), int(i))
+            case["specs"] = [sp[: used.get(k, 0) + 4] for k, sp in enumerate(case["specs"])]
+        return case
     if scn["level"] in ("search", "shared") and obs is not None:
         used = [i for i in obs.get("runlog", {})] + [0]
         case["specs"] = case["specs"][: max(used) + 4]  # the run-functions of the jobs that ran (+ a few)
     return case
+
+
+def _judge_shared(ck, case, scn, obs, drv, py_bad):
+    """L3 on a history of search() calls on one storage / one search_id: the verified checker `checkShared` on the real
+    status log and tables decides; the Python oracle names the clause, owns the clauses outside the checker, and a clause
+    it reports while the checker accepts is a broken correspondence.  -> the failures [(clause, entry, detail)]"""
+    entry = "Search.search"
+    req = build_shared_obs(scn, obs)
+    if req is None:
+        ck.count("checker:not-applicable(no status log)")
+        return list(py_bad)
+    rep = drv.ask(req)
+    ck.count("sharedchecker:ok" if rep["check"] else "sharedchecker:false")
+    # (the status the storage shows at the very end is not part of the checker's observation: that variant of
+    # terminal-status-changed is the Python oracle's alone)
+    in_checker = lambda b: b[0] in CHECKER_CLAUSES and not (isinstance(b[2], dict) and "in_storage_at_the_end" in b[2])
+    py_core = [b for b in py_bad if in_checker(b)]
+    fails = [b for b in py_bad if not in_checker(b)]
+    if not rep["check"]:
+        if not rep["monotone"]:
+            conj, badjob = "monotone", rep.get("badMonotone")
+        else:
+            bt = rep["badTable"]
+            conj = next((k for k in ("once", "complete", "terminal", "classified", "reached") if not bt[k]), "table")
+            badjob = bt.get("badClassified") if conj == "classified" else bt.get("badRow") if conj == "reached" else None
+        agree = [b for b in py_core if CHECKER_CLAUSES[b[0]] == conj] or py_core
+        if agree:
+            fails.insert(0, agree[0])
+        else:
+            ck.count("checker:python-oracle-missed")
+            fails.insert(0, ("checker-" + conj, entry, {"job": badjob, "table": rep.get("badTable"),
+                                                      "record": req["jobs"][badjob] if isinstance(badjob, int) and badjob < len(req["jobs"]) else None}))
+    elif py_core:
+        ck.mismatch(case, {"oracle-disagreement": "Python oracle reports a clause the verified checker accepts", "python": py_core[:2]})
+    return fails
 
 
 def _check_shared(ck, scn, obs, drv, do_shrink=True):
@@ -2216,32 +2644,7 @@ def _check_shared(ck, scn, obs, drv, do_shrink=True):
     ck.count(f"evaluators={len(scn['Ws'])}")
     serial = scn["backend"] == "serial"
     entry = "Search.search"
-    py_bad = oracle_shared(scn, obs)
-    req = build_shared_obs(scn, obs)
-    if req is None:
-        ck.count("checker:not-applicable(no status log)")
-        fails = py_bad
-    else:
-        rep = drv.ask(req)
-        ck.count("sharedchecker:ok" if rep["check"] else "sharedchecker:false")
-        py_core = [b for b in py_bad if b[0] in CHECKER_CLAUSES]
-        fails = [b for b in py_bad if b[0] not in CHECKER_CLAUSES]
-        if not rep["check"]:
-            if not rep["monotone"]:
-                conj, badjob = "monotone", rep.get("badMonotone")
-            else:
-                bt = rep["badTable"]
-                conj = next((k for k in ("once", "complete", "terminal", "classified", "reached") if not bt[k]), "table")
-                badjob = bt.get("badClassified") if conj == "classified" else bt.get("badRow") if conj == "reached" else None
-            agree = [b for b in py_core if CHECKER_CLAUSES[b[0]] == conj] or py_core
-            if agree:
-                fails.insert(0, agree[0])
-            else:
-                ck.count("checker:python-oracle-missed")
-                fails.insert(0, ("checker-" + conj, entry, {"job": badjob, "table": rep.get("badTable"),
-                                                          "record": req["jobs"][badjob] if isinstance(badjob, int) and badjob < len(req["jobs"]) else None}))
-        elif py_core:
-            ck.mismatch(case, {"oracle-disagreement": "Python oracle reports a clause the verified checker accepts", "python": py_core[:2]})
+    fails = _judge_shared(ck, case, scn, obs, drv, oracle_shared(scn, obs))
     for clause, ent, detail in fails[:1]:
         s2 = shrink_shared(scn, clause) if (do_shrink and not clause.startswith("checker-")) else scn
         o2 = obs if s2 is scn else run_scenario(s2)
@@ -2280,9 +2683,479 @@ def _check_shared(ck, scn, obs, drv, do_shrink=True):
         ck.mismatch(case, {"impl_vs_world_model": diff})
 
 
+# --------------------------------------------------------------------------- several searches recorded in one storage
+
+
+def _project_multi(scn, obs, k):
+    """what search k (the one opened by evaluator k) looks like on its own: the scenario and the observations of a
+    history of search() calls of ONE evaluator on one storage / one search_id (level "shared"), built from the writes,
+    run-function records, tables and final statuses of the jobs whose full id starts with that search's id"""
+    sid = obs["sids"][k]
+    pre = sid + "."
+    recs = [r for r in obs["calls"] if r["k"] == k]
+    calls = [dict({x: v for x, v in scn["calls"][r["j"]].items() if x != "k"}, k=0) for r in recs]
+    scn_k = {"level": "shared", "backend": scn["backend"], "Ws": [scn["Ws"][k]], "voff": int(scn.get("voff", 0)),
+             "specs": scn["specs"][k], "calls": calls, "src": scn.get("src", "")}
+    if "unit" in scn:
+        scn_k["unit"] = scn["unit"]
+    serial = scn["backend"] == "serial"
+    ocalls = [dict(r, k=0, now=_tick(r["end"]) if serial else None) for r in recs]
+    timeline = [(r["T0"], r["dl"]) for r in recs]
+    runlog = {int(jid[len(pre):]): dict(rl) for jid, rl in obs["runlog"].items() if jid.startswith(pre)}
+    slog = [(int(jid[len(pre):]), code) for kind, jid, code in obs["elog"] if kind == "w" and jid.startswith(pre)]
+    final = {int(jid[len(pre):]): v for jid, v in (obs.get("final_storage") or {}).items() if jid.startswith(pre)}
+    njobs = len([1 for s_, _ in obs["created"] if s_ == sid])
+    obs_k = {"calls": ocalls, "error": None, "timeline": timeline, "owner": {i: 0 for i in range(njobs)}, "slog": slog,
+             "runlog": runlog, "final_storage": final}
+    return scn_k, obs_k
+
+
+def lean_request_multi(scn, obs, jobfirst=()):
+    """the whole history for the model of one storage object holding several searches (`Model/MultiSearch.lean`, driver op
+    `store`): search k = the one opened by evaluator k, one evaluator on each; the calls in the order in which they were
+    made, each with the reports observed for it; `jobfirst`: the (search, index) pairs that win their ties"""
+    searches = []
+    for k, W in enumerate(scn["Ws"]):
+        sp = [[int(m), int(p), (k, i) in jobfirst, int(_expected(scn, i))] for i, (m, p) in enumerate(scn["specs"][k])]
+        searches.append({"Ws": [W], "hpo": True, "specs": sp})
+    acts = []
+    for rec in obs["calls"]:
+        c = scn["calls"][rec["j"]]
+        acts.append({"s": rec["k"], "e": 0, "op": "search", "n": -1 if c.get("n") is None else c["n"], "strict": bool(c.get("strict")),
+                     "timeout": c.get("t"), "reps": rec["reps"], "drain": rec["drain"], "delays": list(c.get("delays") or [])})
+    return {"op": "store", "searches": searches, "acts": acts}
+
+
+def _compare_multi(scn, obs, rep):
+    """model of the storage with its searches vs observations, search by search (clock, stop reason, rows, every job's write
+    log / final status / start / return / last read, the table) -> {search: differences}, ties per search"""
+    diffs, ties = {}, set()
+    for k in range(len(scn["Ws"])):
+        scn_k, obs_k = _project_multi(scn, obs, k)
+        if k >= len(rep["searches"]):
+            diffs[k] = {"search": "not in the model's storage"}
+            continue
+        ms = rep["searches"][k]
+        rep_k = {"jobs": ms["jobs"], "results": ms["results"],
+                 "outs": [o for o, rec in zip(rep["outs"], obs["calls"]) if rec["k"] == k]}
+        if not obs_k["calls"] and not ms["jobs"]:
+            continue
+        d = _compare_shared(scn_k, obs_k, rep_k)
+        if d:
+            diffs[k] = d
+            ties |= {(k, i) for i in _tie_jobs(rep_k) if f"job{i}.log" in d or f"job{i}.start/ret/saw" in d or f"job{i}.status" in d}
+    return diffs, ties
+
+
+def _multi_error(obs):
+    err = obs["error"]
+    clause = "keeps-submitting-after-expiry" if err.startswith("keeps-submitting-after-expiry") else \
+        "does-not-return" if "does-not-return" in err or "vloop" in err else "raises"
+    return [(clause, "Search.search", {"error": err, "call": obs.get("error_call"), "asks": obs.get("error_asks"), "tells": obs.get("error_tells")})]
+
+
+def oracle_multi_cross(scn, obs):
+    """the clauses that need the FULL job ids (a storage that holds several searches): (a) the status of each job as the
+    storage shows it over time -- every write and every read (`job.status` inside the run-function, `_on_done`, `close`,
+    the `job_status` column of a table, `load_job_status` at the end), in the order in which they took effect -- only
+    moves forward; (b) the jobs the storage lists for a search are exactly the jobs created for it"""
+    entry = "Search.search"
+    bad = []
+    sid2k = {sid: k for k, sid in enumerate(obs.get("sids") or [])}
+    seqs = {}
+    for kind, jid, code in obs.get("elog") or []:
+        seqs.setdefault(jid, []).append((kind, code))
+    for jid, seq in sorted(seqs.items()):
+        prev = None
+        for n, (kind, code) in enumerate(seq):
+            if prev is not None and code not in FWD.get(prev, ()):
+                ev = []
+                for kd, cd in seq[:n + 1]:  # compact: consecutive repeats collapse
+                    x = f"{'read' if kd == 'r' else 'write'}:{'RrDcC'[cd] if 0 <= cd < 5 else cd}"
+                    if not ev or ev[-1] != x:
+                        ev.append(x)
+                bad.append(("observed-status-not-monotone", entry,
+                            {"job": jid, "search": sid2k.get(jid.split(".")[0]), "went": [prev, code], "events(R=READY,r=RUNNING,D=DONE,c=CANCELLING,C=CANCELLED)": ev[-12:]}))
+                break
+            prev = code
+    for k, sid in enumerate(obs.get("sids") or []):
+        made = sorted(j for s_, j in obs["created"] if s_ == sid)
+        listed = sorted((obs.get("listed") or {}).get(k) or [])
+        if made != listed or any(not j.startswith(sid + ".") for j in made):
+            bad.append(("search-job-list-wrong", entry, {"search": k, "created_for_it": made[:20], "listed_for_it": listed[:20]}))
+    return bad
+
+
+def oracle_multi(scn, obs):
+    """the property on a history of search() calls of several evaluators that share ONE storage object but own a search
+    EACH: every search, taken on its own (jobs identified by their full id), satisfies every clause of `oracle_shared`
+    (monotone writes, terminal statuses final, its tables list exactly its own jobs with the statuses they reached,
+    classification against ITS OWN timeouts, value kept, returns), plus the cross-search clauses"""
+    if obs.get("error"):
+        return _multi_error(obs)
+    bad = []
+    for k in range(len(scn["Ws"])):
+        scn_k, obs_k = _project_multi(scn, obs, k)
+        for cl, ent, det in oracle_shared(scn_k, obs_k):
+            bad.append((cl, ent, dict(det, search=k) if isinstance(det, dict) else det))
+    return bad + oracle_multi_cross(scn, obs)
+
+
+def _canon_multi(scn):
+    """evaluators (= searches) renumbered by first use, unused ones dropped"""
+    order = []
+    for c in scn["calls"]:
+        if c["k"] not in order:
+            order.append(c["k"])
+    if order == list(range(len(scn["Ws"]))):
+        return scn
+    return dict(scn, Ws=[scn["Ws"][k] for k in order], specs=[scn["specs"][k] for k in order],
+                calls=[dict(c, k=order.index(c["k"])) for c in scn["calls"]])
+
+
+def shrink_multi(scn, clause, budget=30):
+    """serial, one call after the other: fewer calls, plain `max_evals=1` calls where the failure survives, no slow ask,
+    no budget next to a timeout, one worker each"""
+    if scn["backend"] != "serial" or scn.get("rounds"):
+        return scn
+
+    def fails(c):
+        nonlocal budget
+        if budget <= 0:
+            return False
+        budget -= 1
+        return any(cl == clause for cl, _, _ in oracle_multi(c, run_scenario(c)))
+
+    def with_call(b, j, c):
+        return dict(b, calls=b["calls"][:j] + [c] + b["calls"][j + 1:])
+
+    best = scn
+    changed = True
+    while changed and budget > 0:
+        changed = False
+        cands = []
+        for j in range(len(best["calls"])):
+            if len(best["calls"]) > 1:
+                cands.append(_canon_multi(dict(best, calls=best["calls"][:j] + best["calls"][j + 1:])))
+        for j, c in enumerate(best["calls"]):
+            plain = {"k": c["k"], "n": 1}
+            if c != plain:
+                cands.append(with_call(best, j, plain))
+            if c.get("delays"):
+                cands.append(with_call(best, j, {x: v for x, v in c.items() if x != "delays"}))
+            if c.get("n") is not None and c.get("t") is not None:
+                cands.append(with_call(best, j, {x: v for x, v in c.items() if x not in ("n", "strict")}))
+            elif c.get("strict"):
+                cands.append(with_call(best, j, dict(c, strict=False)))
+        if any(W > 1 for W in best["Ws"]):
+            cands.append(dict(best, Ws=[1] * len(best["Ws"])))
+        for cand in cands:
+            if fails(cand):
+                best, changed = cand, True
+                break
+    return _canon_multi(best)
+
+
+def fingerprint_multi(clause, entry, scn):
+    ks = [f"s{c['k']}:{call_kind(c)}" for c in scn["calls"]]
+    opt = f"searches-in-one-storage={len(scn['Ws'])};history={','.join(ks[:-1]) or '-'};call={ks[-1]};backend={scn['backend']}"
+    if any(len(r) > 1 for r in scn.get("rounds") or []):
+        opt += ";concurrent=True"
+    return f"C14|{clause}|{entry}|{opt}"
+
+
+def _check_multi(ck, scn, obs, drv, do_shrink=True):
+    """several searches recorded in one storage object.  L3: per search the verified checker `checkShared` on the writes
+    and tables of that search's jobs (+ the Python oracle), and the cross-search clauses on full job ids.  L2 (serial):
+    the whole history replayed by the model of one storage object with its searches (`Model/MultiSearch.lean`: jobs keyed
+    by (search, index), one clock; `C14_search_isolation`), compared search by search."""
+    case = _case_of(scn, obs)
+    E = len(scn["Ws"])
+    ck.case(case, nontrivial=bool(obs.get("runlog")) and len({c["k"] for c in scn["calls"]}) >= 2)
+    ck.count("src:" + scn["src"])
+    ck.count(f"searches-in-one-storage={E}")
+    serial = scn["backend"] == "serial"
+    fails = []
+    if obs.get("error"):
+        fails = _multi_error(obs)
+    else:
+        for k in range(E):
+            scn_k, obs_k = _project_multi(scn, obs, k)
+            if not obs_k["calls"]:
+                continue
+            for cl, ent, det in _judge_shared(ck, case, scn_k, obs_k, drv, oracle_shared(scn_k, obs_k)):
+                fails.append((cl, ent, dict(det, search=k) if isinstance(det, dict) else det))
+        fails += oracle_multi_cross(scn, obs)
+    for clause, ent, detail in fails[:1]:
+        s2 = shrink_multi(scn, clause) if (do_shrink and not clause.startswith("checker-")) else scn
+        o2 = obs if s2 is scn else run_scenario(s2)
+        ck.fail(fingerprint_multi(clause, ent, s2), f"{clause} ({ent}; several searches recorded in one storage)", _case_of(s2, o2),
+                {"detail": detail, "unshrunk": case if s2 is not scn else None})
+    if obs.get("error"):
+        return
+    idx = {}
+    for s_, jid in obs["created"]:
+        idx.setdefault(jid.split(".")[-1], set()).add(s_)
+    ck.count("multi:job-indices-shared-by-searches=" + (">=1" if any(len(v) > 1 for v in idx.values()) else "0"))
+    ck.count("multi:status-reads=" + ("0" if not any(kd == "r" for kd, _, _ in obs["elog"]) else ">=1"))
+    logs = {}
+    for kd, jid, code in obs["elog"]:
+        if kd == "w":
+            logs.setdefault(jid, []).append(code)
+    for lg in logs.values():
+        ck.count("log:" + "".join("RrDcC"[x] if 0 <= x < 5 else "?" for x in lg))
+    if not serial or scn.get("rounds"):
+        return
+    # ---- L2: the model of ONE storage object holding these searches replays the whole history on the real (virtual) clock
+    rep = drv.ask(lean_request_multi(scn, obs))
+    diffs, ties = _compare_multi(scn, obs, rep)
+    if diffs and ties:
+        rep2 = drv.ask(lean_request_multi(scn, obs, jobfirst=ties))
+        if not _compare_multi(scn, obs, rep2)[0]:
+            ck.count("tie-resolved-by-jobFirst")
+            diffs = {}
+    for mo in rep["outs"]:
+        if mo.get("stop"):
+            ck.count("store_stop:" + mo["stop"])
+    if diffs:
+        ck.mismatch(case, {"impl_vs_store_model(per search)": diffs})
+
+
+def oracle_multi_ev(scn, obs):
+    """interleaved evaluator-level scripts on one storage object holding a search per evaluator: the cross-search clauses
+    (every job's status as the storage shows it over time only moves forward; each search lists its own jobs) and, per
+    evaluator: the writes of each of its jobs are an allowed sequence, no job twice in `jobs_done`, every reported status
+    is terminal, is the one the job reached (its last write) and is what the storage shows at the end, the value is kept,
+    and an evaluator on which no timeout was ever set has no job that went through CANCELLING"""
+    entry = "Evaluator.gather"
+    if obs.get("error"):
+        err = obs["error"]
+        return [("does-not-return" if "does-not-return" in err or "vloop" in err else "raises", entry, {"error": err})]
+    bad = [(cl, entry, det) for cl, _, det in oracle_multi_cross(scn, obs)]
+    logs = {}
+    for kd, jid, code in obs["elog"]:
+        if kd == "w":
+            logs.setdefault(jid, []).append(code)
+    sid2k = {sid: k for k, sid in enumerate(obs["sids"])}
+    closed = set(obs.get("closed_inflight") or [])
+    for jid, lg in sorted(logs.items()):
+        if lg not in ALLOWED_LOGS:
+            bad.append(("status-not-monotone", entry, {"job": jid, "log": lg}))
+        k = sid2k.get(jid.split(".")[0])
+        if 3 in lg and not obs["timed"].get(k):
+            bad.append(("no-timeout-but-cancelled", entry, {"job": jid, "log": lg, "evaluator": k}))
+    for e, res in sorted(obs["results"].items()):
+        ids = [r[0] for r in res]
+        if len(set(ids)) != len(ids):
+            bad.append(("reported-twice", entry, {"evaluator": e, "ids": ids}))
+        for jid, status, out in res:
+            lg = logs.get(jid) or []
+            where = {"evaluator": e, "job": jid, "log": lg}
+            if sid2k.get(jid.split(".")[0]) != e:
+                bad.append(("search-job-list-wrong", entry, dict(where, what="a job of another search in jobs_done")))
+            if status not in ("DONE", "CANCELLED"):
+                bad.append(("non-terminal-status-reported", entry, dict(where, status=status)))
+            elif not lg or ST[status] != lg[-1]:
+                bad.append(("reported-status-not-reached", entry, dict(where, reported=status)))
+            fs = obs["final_storage"].get(jid)
+            if lg and fs is not None and fs != lg[-1]:
+                bad.append(("terminal-status-changed", entry, dict(where, reported=status, in_storage_at_the_end=fs)))
+            rl = obs["runlog"].get(jid)
+            if jid not in closed and rl is not None and "ret" in rl:
+                try:
+                    ok = float(out) == _expected(scn, int(jid.split(".")[1]))
+                except Exception:
+                    ok = False
+                if not ok:
+                    bad.append(("value-not-kept", entry, dict(where, output=repr(out))))
+    return bad
+
+
+def fingerprint_multi_ev(clause, entry, scn):
+    names = [f"e{o['e']}:" + (("gatherALL" if o.get("all") else "gatherBATCH") if o["op"] == "gather" else o["op"]) for o in scn["ops"]]
+    return f"C14|{clause}|{entry}|searches-in-one-storage={len(scn['Ws'])};ops={','.join(names)};backend=serial"
+
+
+def _check_multi_ev(ck, scn, obs, drv, do_shrink=True):
+    case = _case_of(scn, obs)
+    ck.case(case, nontrivial=bool(obs.get("runlog")))
+    ck.count("src:" + scn["src"])
+    fails = oracle_multi_ev(scn, obs)
+    if not obs.get("error"):
+        # the verified checker on every evaluator's own jobs (monotone writes, no duplicate, terminal; the scripts need not
+        # be complete and make no claim on instants)
+        base = dict(start=0, ret=0, natEnd=0, deadline=None, saw=False, pollsAgain=False, loopRan=True, tie=False, gathered=False, valueKept=True)
+        for k, sid in enumerate(obs["sids"]):
+            n = len([1 for s_, _ in obs["created"] if s_ == sid])
+            logs = {i: [] for i in range(n)}
+            for kd, jid, code in obs["elog"]:
+                if kd == "w" and jid.startswith(sid + ".") and int(jid.split(".")[1]) < n:
+                    logs[int(jid.split(".")[1])].append(code)
+            res = [int(r[0].split(".")[1]) for r in obs["results"].get(k, []) if r[0].startswith(sid + ".")]
+            rep = drv.ask({"op": "checklog", "jobs": [dict(base, log=logs[i]) for i in range(n)], "results": res, "complete": False})
+            ck.count("checker:ok" if rep["check"] else "checker:false")
+            if not rep["check"] and not fails:  # (otherwise the Python oracle's clause names the failure)
+                conj = next(x for x in ("monotone", "once", "complete", "terminal", "classified") if not rep[x])
+                fails.insert(0, ("checker-" + conj, "Evaluator.gather", {"evaluator": k, "job": rep.get("badMonotone")}))
+    for clause, ent, detail in fails[:1]:
+        ck.fail(fingerprint_multi_ev(clause, ent, scn), f"{clause} ({ent}; several searches recorded in one storage)", case, {"detail": detail})
+    if obs.get("error"):
+        return
+    inflight = 0
+    for kd, jid, code in obs["elog"]:
+        if kd == "r" and code == 1:
+            inflight += 1
+    ck.count("multi-ev:reads-of-RUNNING=" + (">=1" if inflight else "0"))
+    logs = {}
+    for kd, jid, code in obs["elog"]:
+        if kd == "w":
+            logs.setdefault(jid, []).append(code)
+    for lg in logs.values():
+        ck.count("log:" + "".join("RrDcC"[x] if 0 <= x < 5 else "?" for x in lg))
+
+
+def gen_multi_evaluator(ck, n):
+    """serial backend: interleaved op scripts on 2-3 evaluators of ONE storage object, each owning its search.  Evaluator 0
+    (with or without timeout) submits and collects one batch -- other jobs of its search stay in flight, polling their
+    status --, then another evaluator (with or without timeout) submits and gathers everything in ITS search (its
+    timeout may expire meanwhile), then evaluator 0 gathers the rest; everybody closes"""
+    rng = ck.rng
+    out = []
+    for t in range(n):
+        E = 2 if t % 4 else 3
+        Ws = [rng.choice([2, 2, 4])] + [rng.choice([1, 2]) for _ in range(E - 1)]
+        ops, specs = [], []
+        t0 = rng.choice([None, None, 3, 4, 6])
+        if t0 is not None:
+            ops.append({"e": 0, "op": "timeout", "t": t0})
+        K0 = rng.randint(2, Ws[0] + 1)
+        ops += [{"e": 0, "op": "submit", "k": K0}, {"e": 0, "op": "gather", "all": False, "size": 1}]
+        # one short job (collected by the batch gather), the others long: in flight while the other evaluators act
+        sp0 = [[1, 1]] + [[rng.randint(2, 6), rng.choice([1, 1, 2])] for _ in range(K0 - 1)]
+        rng.shuffle(sp0)
+        specs.append(sp0)
+        for e in range(1, E):
+            te = rng.choice([None, 1, 2, 2, 3])
+            if te is not None:
+                ops.append({"e": e, "op": "timeout", "t": te})
+            Ke = rng.randint(1, 4)
+            ops += [{"e": e, "op": "submit", "k": Ke}, {"e": e, "op": "gather", "all": True}]
+            specs.append([[m, p] for m, p in _specs_around(rng, Ke, te, Ws[e])])
+        ops.append({"e": 0, "op": "gather", "all": True})
+        if rng.random() < 0.5:  # a second round on evaluator 1, after everything of search 0 has been reported
+            ops += [{"e": 1, "op": "submit", "k": 1}, {"e": 1, "op": "gather", "all": True}]
+            specs[1].append([rng.randint(0, 3), 1])
+        ops += [{"e": e, "op": "close"} for e in range(E)]
+        out.append({"level": "multi-evaluator", "backend": "serial", "Ws": Ws, "voff": 1, "specs": specs, "ops": ops,
+                    "src": "multi-evaluator:interleaved"})
+    return out
+
+
+def gen_multi(ck, n):
+    """serial backend, virtual clock: histories of 2-5 search() calls made by 2-3 evaluators created on ONE storage object
+    WITHOUT search_id -- each opens a search of its own, the job indices of the searches overlap -- with and without
+    timeouts, the evaluators taking turns (call kinds as in gen_search; every search has its own run-functions)"""
+    rng = ck.rng
+    out = []
+    fam = [[(0, "P"), (1, "T")], [(0, "P"), (1, "T"), (0, "P")], [(0, "T"), (1, "T")], [(0, "T"), (1, "P"), (0, "T")],
+           [(0, "B"), (1, "T"), (2, "P")], [(0, "T"), (1, "P"), (0, "P"), (1, "T")], [(0, "P"), (1, "P"), (0, "P")],
+           [(0, "S"), (1, "Q"), (0, "T")], [(0, "T"), (1, "B"), (2, "T"), (0, "P")], [(0, "P"), (1, "P"), (1, "T"), (0, "S")]]
+    for t in range(n):
+        if t < len(fam):
+            seq = fam[t]
+        else:
+            E = rng.choice([2, 2, 3])
+            L = rng.choice([2, 3, 3, 4, 5])
+            ks = [0] + [rng.randrange(E) for _ in range(L - 1)]
+            if len(set(ks)) < 2:
+                ks[-1] = 1
+            seq = [(k, rng.choice("PPSTTTBBQ")) for k in ks]
+        order = []
+        for k, _ in seq:  # searches numbered by first use
+            if k not in order:
+                order.append(k)
+        seq = [(order.index(k), kind) for k, kind in seq]
+        E = len(order)
+        Ws = [rng.choice([1, 2, 2, 4]) for _ in range(E)]
+        calls = [dict(_rand_call(rng, kind), k=k) for k, kind in seq]
+        specs = []
+        for k in range(E):
+            c = next((x["t"] for x in calls if x["k"] == k and x.get("t") is not None), 3)
+            specs.append([[max(1, m), p] for m, p in _specs_around(rng, 40, c, Ws[k])])
+        src = "multi"
+        if rng.random() < 0.25:
+            for x in calls:  # a slow ask(), under the same restriction as in gen_search
+                if x.get("t") is not None:
+                    if Ws[x["k"]] == 1:
+                        x["delays"] = [rng.choice([0, 0, 1]) for _ in range(rng.randint(0, 2))] + [rng.randint(1, x["t"] + 1)]
+                    else:
+                        x["delays"] = [rng.randint(x["t"] - 1, x["t"] + 2)]
+                    src = "multi:slow-ask"
+        out.append({"level": "multi", "backend": "serial", "Ws": Ws, "voff": 1, "specs": specs, "calls": calls, "src": src})
+    return out
+
+
+def gen_multi_realtime(ck, n, backend="thread"):
+    """thread backend, real time, ONE storage object holding one search per evaluator: (a) the evaluators take turns (an
+    untimed search, then another search that ends by its timeout, then the first once more); (b) two search() calls run
+    CONCURRENTLY (one thread each): a timed search whose evaluation runs across the deadline next to a search without
+    timeout that finishes quick evaluations meanwhile, or two timed searches side by side"""
+    rng = ck.rng
+    out = []
+    unit = 0.05
+    fam = [("par", [(0, "T"), (1, "P")]), ("seq", [(0, "P"), (1, "T"), (0, "P")]), ("par", [(0, "T"), (1, "T")]),
+           ("seq", [(0, "T"), (1, "P"), (0, "T")]), ("par2", [(0, "P"), (0, "T"), (1, "P")])]
+    for t in range(n):
+        mode, seq = fam[t % len(fam)]
+        Ws = [rng.choice([1, 2]) for _ in range(2)]
+        t0 = 1
+        calls = []
+        for k, kind in seq:
+            c = {"k": k}
+            if kind == "P":
+                c["n"] = rng.choice([2, 3])
+            if kind == "T":
+                c["t"] = t0
+            calls.append(c)
+        specs = []
+        for k in range(2):
+            timed = any(kind == "T" for kk, kind in seq if kk == k)
+            sp = []
+            for i in range(40):
+                p = rng.choice([1, 2])
+                if timed and i < Ws[k]:
+                    dur = 0.25 if (i % 2 == 1) else t0 + 0.75  # short and long evaluations side by side, at least one long
+                elif timed:
+                    dur = rng.choice([0.25, 0.5, t0 + 0.75, t0 + 1.5])
+                else:
+                    dur = rng.choice([0.25, 0.25, 0.5])
+                sp.append([int(round(dur / (p * unit))), p])
+            specs.append(sp)
+        scn = {"level": "multi", "backend": backend, "Ws": Ws, "voff": 1, "specs": specs, "calls": calls, "unit": unit,
+               "src": f"multi:{backend}:{'concurrent' if mode != 'seq' else 'turns'}"}
+        if mode == "par":
+            scn["rounds"] = [[0, 1]]
+        elif mode == "par2":
+            scn["rounds"] = [[0], [1, 2]]
+        out.append(scn)
+    return out
+
+
 def _check_one(ck, scn, obs, drv, do_shrink=True):
     if scn["level"] == "shared":
         return _check_shared(ck, scn, obs, drv, do_shrink)
+    if scn["level"] in ("multi", "multi-evaluator"):
+        try:
+            return (_check_multi if scn["level"] == "multi" else _check_multi_ev)(ck, scn, obs, drv, do_shrink)
+        except HarnessError:
+            raise
+        except (ValueError, KeyError, IndexError, TypeError) as e:
+            # job ids / tables of a shape the projection per search cannot read: on a changed tree that is a broken
+            # correspondence (with the case as replay), on the unchanged tree a defect of the harness
+            if not common.tree_differs_from_head():
+                raise
+            ck.mismatch(_case_of(scn), {"uninterpretable-observations": f"{type(e).__name__}: {e}"[:300]})
+            return
     if scn["level"] == "shared-evaluator":
         return _check_shared_ev(ck, scn, obs, drv, do_shrink)
     case = _case_of(scn, obs)
@@ -2540,7 +3413,12 @@ def run(ck):
                "search_stopped attribute, combinations; increasing or decreasing objectives): sequences of 1-3 search() "
                "calls on the serial backend replayed by the model's loop with the explicit stopped flag "
                "(Model/StopFlag.lean, fed with what _search saw of each callback per iteration), timed searches on the "
-               "thread (thorough: process) backend; distinct by canonical scenario; non-trivial = a timeout is in play "
+               "thread (thorough: process) backend; SEVERAL SEARCHES recorded in one storage object (2-3 evaluators created "
+               "with the same storage and no search_id, each opening its own search, overlapping job indices): histories of "
+               "2-5 search() calls with and without timeouts in which the searches take turns (serial, virtual clock; replayed "
+               "by the model of one storage object with its searches, Model/MultiSearch.lean) and, on the thread backend, "
+               "turns and CONCURRENT calls (one thread per search); every status write and READ of the storage recorded with "
+               "the full job id; distinct by canonical scenario; non-trivial = a timeout is in play "
                "and at least one job ran (multi-evaluator histories: at least two evaluators acted)")
     ck.assumptions = [
         "asyncio.wait reports only finished tasks, each once, at least as many as awaited (checked by the model on the observed reports: otherwise badEnv)",
@@ -2550,6 +3428,7 @@ def run(ck):
         "close() while a job is CANCELLING leaves it CANCELLING and unreported (modelled as Pc.aborted; outside the property: the evaluation has not returned)",
         "several evaluators on one storage: an evaluator acts only while the others have nothing in flight (their event loops do not run meanwhile); the order in which gather_other_jobs_done reports the jobs of the others (ids sorted as strings) is an observed input whose contract (exactly the collectable jobs not yet gathered, each once) the model checks",
         "does-not-return (multi-evaluator histories) = 2000 consecutive polls of the storage by the caller without any write to it (progress, not a duration)",
+        "several searches in one storage object: jobs are identified by their full id 'search.index'; the recording storage subclass holds one lock around each status read / write and its record, so the recorded order is the order in which they took effect (threads included); each search is judged against its own calls' timeouts only",
         "callbacks: what _search sees of a callback is whether it has a search_stopped attribute and its value after each tell (observed on the harness-held objects, input of the model); keeps-submitting-after-expiry = an ask() of a timed call after a tell() of that call whose clock reading was already >= (instant of the call's first ask + budget) >= the evaluator's deadline (order of events); runs with callbacks are cut short after 12 such asks, or 60 asks in one call (every evaluation of these scenarios takes >= 1 tick, a call needs at most max(n, t + 2) asks)",
     ]
     ck.trusted_extra = ["harness/vloop.py (virtual-time event loop, patched time of deephyper.evaluator._evaluator)"]
@@ -2572,6 +3451,10 @@ def run(ck):
     real += gen_callbacks_realtime(ck, ck.pick(2, 6), "thread")
     if ck.thorough:
         real += gen_callbacks_realtime(ck, 3, "process")
+    # several searches recorded in ONE storage object (evaluators created with the same `storage=` and no search_id);
+    # generated after everything else, for the same reason
+    serial += gen_multi(ck, ck.pick(30, 400)) + gen_multi_evaluator(ck, ck.pick(16, 200))
+    real += gen_multi_realtime(ck, ck.pick(2, 10), "thread")
     if ck.thorough:
         import concurrent.futures as cf
 
@@ -2604,7 +3487,7 @@ def replay(ck, case):
     obs = run_scenario(scn)
     vloop.uninstall()
     brief = {k: obs.get(k) for k in ("error", "results", "final")}
-    if scn["level"] in ("search", "shared"):
+    if scn["level"] in ("search", "shared", "multi"):
         brief["calls"] = [{"evaluator": c.get("k", 0), "rows": [(r["id"], r["status"]) for r in c["rows"]], "stopped": c["stopped"]} for c in obs["calls"]]
     print("replay:", json.dumps(brief, default=str)[:3000])
     with ck.driver() as drv:
@@ -2622,6 +3505,13 @@ def search(ck):
             s2 = shrink_shared(scn, clause)
             o2 = obs if s2 is scn else run_scenario(s2)
             ck.fail(fingerprint_shared(clause, entry, s2), f"{clause} ({entry}; several evaluators on one storage)", _case_of(s2, o2), {"detail": detail})
+    for scn in gen_multi(ck, ck.pick(60, 400)):
+        scn["src"] = "search()"
+        obs = run_scenario(scn)
+        for clause, entry, detail in oracle_multi(scn, obs)[:1]:
+            s2 = shrink_multi(scn, clause)
+            o2 = obs if s2 is scn else run_scenario(s2)
+            ck.fail(fingerprint_multi(clause, entry, s2), f"{clause} ({entry}; several searches recorded in one storage)", _case_of(s2, o2), {"detail": detail})
     scns = gen_search(ck, ck.pick(400, 3000)) + gen_evaluator(ck, ck.pick(400, 3000))
     for scn in scns:
         scn["src"] = "search()"
